@@ -2,8 +2,8 @@
    L0 = TableSpec.v (the table as a list of rows), L1 = IndexModel.v / MultiHash.v (what DataIndexes.h does);
    the segment sizes used by MultiHash.v are regenerated from SegmentedArray.h on every run (Gen_Segments.v),
    and all models are run against the real momo::DataTable / DataIndexes on every run. *)
-From Coq Require Import List ZArith Permutation.
-From C07 Require Import TableSpec TableProofs NumModel MultiHash MultiHashProofs IndexModel IndexProofs AtomicProofs.
+From Coq Require Import List ZArith Bool Permutation.
+From C07 Require Import TableSpec TableProofs NumModel MultiHash MultiHashProofs SegProofs IndexModel IndexProofs AtomicProofs RefineProofs.
 Import ListNotations.
 
 (* For EVERY history of table operations starting from the empty table (adds, inserts, whole-row and
@@ -157,3 +157,91 @@ Theorem C07_multihash_find_present :
   find_multi R ct m k = gkey g :: gvals g.
 Proof. exact multihash_find_present. Qed.
 Print Assumptions C07_multihash_find_present.
+
+(* MultiHash::pvAdd (sort the segment that has just been completed - decided by rawCount % 64 and the GENERATED
+   GetSegItemIndexes / GetItemCount - then append) preserves the sorted-segment invariant and adds exactly the row,
+   for every array shorter than max_vals = 262144 rows per key (the range for which the boundary arithmetic of the
+   generated functions is checked by vm_compute). *)
+Theorem C07_pvadd_preserves_invariant :
+  forall raw vals, vals_ok vals -> length vals < max_vals ->
+  vals_ok (pv_add raw vals) /\ Permutation (pv_add raw vals) (raw :: vals).
+Proof. exact pv_add_preserves. Qed.
+Print Assumptions C07_pvadd_preserves_invariant.
+
+(* MultiHash::FilterRaws (one key) ESTABLISHES the invariant whatever the array looked like: after the swap-remove
+   scan every completed segment is re-sorted; nothing is added. *)
+Theorem C07_filterraws_establishes_invariant :
+  forall keep vals, length vals < max_vals ->
+  vals_ok (filter_vals keep vals) /\ length (filter_vals keep vals) <= length vals /\
+  Permutation (filter_vals keep vals) (filter_scan (S (length vals)) keep 0 vals).
+Proof. exact filter_vals_ok. Qed.
+Print Assumptions C07_filterraws_establishes_invariant.
+
+(* For EVERY history of the operations MultiHash performs on a value array (pvAdd, AcceptRemove of a present row,
+   Remove(last), FilterRaws) starting from the empty array and staying below max_vals, the invariant holds ... *)
+Theorem C07_segment_invariant_reachable :
+  forall ops v, vrun [] ops = Some v -> vals_ok v.
+Proof. exact vals_ok_reachable_from_empty. Qed.
+Print Assumptions C07_segment_invariant_reachable.
+
+(* ... so in every reachable array AcceptRemove works, with NO invariant hypothesis left *)
+Theorem C07_reachable_remove_succeeds :
+  forall ops v raw, vrun [] ops = Some v -> In raw v ->
+  exists v', accept_remove raw v = Some v' /\ Permutation v (raw :: v') /\ vals_ok v'.
+Proof. exact reachable_remove_succeeds. Qed.
+Print Assumptions C07_reachable_remove_succeeds.
+
+(* L1 -> L0.  If a unique hash holds exactly the table rows rs under their projected keys (u_cons), FindRaws returns
+   exactly the rows a brute-force scan of the table selects, whatever a probe can see (R). *)
+Theorem C07_find_unique_is_scan :
+  forall R ct rs u k, (forall s, R s s = true) -> u_cons ct rs u ->
+  Permutation (find_unique R ct u k) (filter (has_key ct (ucols u) k) rs).
+Proof. exact find_unique_is_scan. Qed.
+Print Assumptions C07_find_unique_is_scan.
+
+(* the same for a multi hash that partitions exactly the table rows by projected key (m_cons) *)
+Theorem C07_find_multi_is_scan :
+  forall R ct rs m k, (forall s, R s s = true) -> m_cons ct rs m ->
+  Permutation (find_multi R ct m k) (filter (has_key ct (mcols m) k) rs).
+Proof. exact find_multi_is_scan. Qed.
+Print Assumptions C07_find_multi_is_scan.
+
+(* ... read at L0: the contents of the rows found are the rows of the TableSpec table whose projection is the key *)
+Theorem C07_find_multi_matches_spec :
+  forall R ct rs m k t, (forall s, R s s = true) -> m_cons ct rs m -> map ct rs = rows t ->
+  Permutation (map ct (find_multi R ct m k)) (filter (fun r => zlist_eqb (proj (mcols m) r) k) (rows t)).
+Proof. exact find_multi_matches_spec. Qed.
+Print Assumptions C07_find_multi_matches_spec.
+
+(* Select / SelectCount through an index (pvSelectRec: index equalities into FindRaws, the other equalities and
+   the row filter as residual filter f): whichever consistent unique or multi index covers the predicate g, the
+   rows selected are those a scan selects, so the choice made by GetFit*HashIndex cannot change the result. *)
+Theorem C07_index_choice_irrelevant :
+  forall R ct rs u k1 f1 m k2 f2 g,
+  (forall s, R s s = true) -> u_cons ct rs u -> m_cons ct rs m ->
+  (forall r, g r = has_key ct (ucols u) k1 r && f1 r) -> (forall r, g r = has_key ct (mcols m) k2 r && f2 r) ->
+  Permutation (select_via_unique R ct u k1 f1) (select_via_multi R ct m k2 f2) /\
+  length (select_via_unique R ct u k1 f1) = length (select_scan rs g) /\
+  length (select_via_multi R ct m k2 f2) = length (select_scan rs g).
+Proof. exact index_choice_irrelevant. Qed.
+Print Assumptions C07_index_choice_irrelevant.
+
+(* the consistency relation is preserved by UniqueHash::Add+AcceptAdd of a new table row (or the hash is unchanged
+   and a row with the same key is named) ... *)
+Theorem C07_unique_add_preserves_consistency :
+  forall ord R ct rs u raw tag,
+  (forall s, R s s = true) -> u_cons ct rs u -> ~ In tag (map etag (uents u)) -> ~ In raw rs ->
+  let '(u1, r) := u_add ord R ct u raw None tag in
+  if Z.eqb r raw then u_cons ct (rs ++ [raw]) (u_accept_add u1)
+  else u1 = u /\ In r rs /\ keyc ct (ucols u) r = keyc ct (ucols u) raw.
+Proof. exact u_add_preserves_cons. Qed.
+Print Assumptions C07_unique_add_preserves_consistency.
+
+(* ... and by MultiHash::Add+AcceptAdd (existing key: pvAdd; new key: new group), including the sorted segments *)
+Theorem C07_multi_add_preserves_consistency :
+  forall ord R ct rs m raw tag,
+  (forall s, R s s = true) -> m_cons ct rs m -> ~ In tag (map gtag (mgroups m)) -> ~ In raw rs ->
+  (forall g, In g (mgroups m) -> length (gvals g) < max_vals) ->
+  m_cons ct (rs ++ [raw]) (m_accept_add (m_add ord R ct m raw tag)).
+Proof. exact m_add_preserves_cons. Qed.
+Print Assumptions C07_multi_add_preserves_consistency.
